@@ -37,11 +37,12 @@ TRelease == /\ Is("Release") /\ ReleaseLeader(Ev.l)
             /\ CASE Ev.kind = "none"    -> UNCHANGED <<orphans, pending, preQ, status>>
                  [] Ev.kind = "invalid" -> status' = status \cup Range(Ev.rel) /\ orphans' = orphans \ Range(Ev.rel)
                  [] Ev.kind = "accept"  -> preQ' = preQ \o Ev.rel /\ orphans' = orphans \ Range(Ev.rel)
-TPreload == Is("Preload") /\ Preload /\ Head(preQ) = Ev.b
+TPreload == Is("Preload") /\ Preload /\ Head(preQ) = Ev.b /\ PreloadOK
+TPreloadReject == Is("PreloadReject") /\ Preload /\ Head(preQ) = Ev.b /\ ~PreloadOK
 TVerify  == /\ Is("Verify") /\ Verify /\ Head(verQ) = Ev.b
             /\ vfy'.res = Ev.res /\ tip' = Ev.tip
 TVerifyDone == Is("VerifyDone") /\ VerifyDone /\ vfy.b = Ev.b
-TNext == TReset \/ TDeliver \/ TReceive \/ TInsert \/ TBroker \/ TRelease \/ TPreload \/ TVerify \/ TVerifyDone
+TNext == TReset \/ TDeliver \/ TReceive \/ TInsert \/ TBroker \/ TRelease \/ TPreload \/ TPreloadReject \/ TVerify \/ TVerifyDone
 TSpec == TInit /\ [][TNext]_tvars
 \* the action property of C01, exempting the harness's reset of the node between scenarios
 TNeverLeave == [][(tip' # tip /\ l <= Len(Rec) /\ Rec[l].ev # "Reset") => TD(tip') > TD(tip)]_tvars
